@@ -39,7 +39,8 @@ RULE = ('chains of 1..3 planes on a fresh Wavefront: amplitude/OPD/mask each sca
         'monolithic or segmented (mask cube from a random labelling, so bounding boxes overlap), pixelscale '
         'None/scalar/pair on both sides incl. inconsistent ones, Pupil focal lengths, per-segment tilt lists; after every '
         'step wavelength, pixelscale, focal_length, shape, .field, .intensity are compared, finally .insert(out, weight) '
-        'with prior content and dyadic weights; lentil.Tilt planes and tilted incoming wavefronts in the chains, the input '
+        'with prior content and dyadic weights; pixel scales differing by 1e-3..1e-17 relative / 1e-8..1e-20 absolute at scales 1, '
+        '1e-3, 5e-6, 4e-9 (scalar and per-axis, one axis equal): refused exactly when unequal as floats; lentil.Tilt planes and tilted incoming wavefronts in the chains, the input '
         'wavefront looked at again afterwards; masks as float/int/bool/uint8; plane-object histories: 2-4 multiplies on ONE '
         'plane with amplitude/opd/mask updates (setter and in place) and repeated/different wavelengths, each compared with '
         'the plane\'s CURRENT attributes; non-trivial = at least one array attribute and (two planes or a cube)')
@@ -470,7 +471,49 @@ def rnd_phist(rng, maxn):
     return {'op': 'phist', 'L': L, 'lam': str(LAM), 'plane': pl, 'acts': acts}
 
 
+def near(rng, a):
+    """a float close to a: relative 1e-3 .. 1e-17, absolute 1e-8 .. 1e-20, a factor 2, or a itself"""
+    t = rng.random()
+    if t < 0.15:
+        return a
+    if t < 0.6:
+        return a * (1 + rng.choice([1, -1]) * 10.0 ** (-rng.choice([3, 4, 6, 9, 12, 15, 16, 17])))
+    if t < 0.9:
+        return a + rng.choice([1, -1]) * 10.0 ** (-rng.choice([8, 9, 10, 12, 15, 18, 20]))
+    return a * rng.choice([2, 0.5, 9])
+
+
+def rnd_pixchain(rng):
+    """pixel scales that differ a little (relative and absolute, scalar and per-axis with one axis equal) at the
+    scales 1, 1e-3, 5e-6, 4e-9: refused exactly when unequal as floats"""
+    a = rng.choice([1.0, 1e-3, 5e-6, 4e-9, 0.25])
+    b = a if rng.random() < 0.6 else rng.choice([1.0, 1e-3, 5e-6, 4e-9]) * rng.choice([1, 2])
+    def form(x, y):
+        return [repr(x)] if (x == y and rng.random() < 0.5) else [repr(x), repr(y)]
+    w = form(a, b)
+    planes = []
+    for _ in range(rng.choice([1, 1, 2])):
+        t = rng.random()
+        if t < 0.35:
+            px, py = near(rng, a), near(rng, b) if a != b else None
+            if py is None:
+                py = px if rng.random() < 0.6 else near(rng, a)
+        elif t < 0.7:
+            px, py = (a, near(rng, b)) if rng.random() < 0.5 else (near(rng, a), b)      # one axis equal
+        else:
+            px, py = a, b
+        n = rng.randint(2, 3)
+        pl = {'kind': 'Plane', 'amp': {'a': [[rnd_gauss(rng) for _ in range(n)] for _ in range(n)]}, 'opd': {'s': 0},
+              'mask': None, 'pix': form(px, py), 'focal': None, 'tilt': [], 'mdtype': 'float'}
+        planes.append(pl)
+    c = {'op': 'chain', 'L': 1, 'lam': str(LAM), 'wpix': w if rng.random() < 0.7 else None, 'wfocal': None, 'wtilt': None,
+         'planes': planes, 'insert': None}
+    return c
+
+
 def generate(rng, tier):
+    for _ in range(60 if tier == 'quick' else 600):
+        yield rnd_pixchain(rng)
     for _ in range(40 if tier == 'quick' else 500):
         yield rnd_views(rng)
     for _ in range(60 if tier == 'quick' else 800):
